@@ -389,6 +389,8 @@ func (e *Engine) step(s *State) []*State {
 		}
 	case *ssa.ChangeType:
 		f.env[x] = e.get(s, f, x.X)
+	case *ssa.ChangeInterface: // the same dynamic value seen through another interface type
+		f.env[x] = e.get(s, f, x.X)
 	case *ssa.IndexAddr:
 		base := e.get(s, f, x.X)
 		idx := s.res(e.toInt(s, e.get(s, f, x.Index).(Term), x.Index.Type()))
@@ -688,6 +690,9 @@ func (e *Engine) typeAssert(s *State, iv IfaceV, x *ssa.TypeAssert) Val {
 		} else {
 			val = e.zero(s, at)
 		}
+	case toIface && iv.Static != nil && types.Implements(iv.Static, at.Underlying().(*types.Interface)):
+		ok = not(iv.IsNil) // the value arrived through an interface type that includes the asserted one
+		val = iv
 	case toIface: // unknown dynamic type asserted to another interface: undecided, result keeps the identity
 		okc := e.declare(s, "assertok", "Bool")
 		ok = and(not(iv.IsNil), okc)
@@ -839,7 +844,15 @@ func (e *Engine) enter(s *State, f *Frame, from, to *ssa.BasicBlock) {
 			limit = ann.Unroll + 1
 		}
 		if f.visits[to] > limit {
-			e.oblig(s, fmt.Sprintf("%s.loop%d.unwind", f.fn.Name(), ord), boolT(false))
+			if ann != nil && ann.Bounded {
+				// a declared bound: longer executions are outside what this contract covers (recorded in the evidence)
+				if e.boundedLoops == nil {
+					e.boundedLoops = map[string]bool{}
+				}
+				e.boundedLoops[fmt.Sprintf("%s loop %d: at most %d iterations explored", shortName(f.fn.String()), ord, ann.Unroll)] = true
+			} else {
+				e.oblig(s, fmt.Sprintf("%s.loop%d.unwind", f.fn.Name(), ord), boolT(false))
+			}
 			s.dead, s.done = true, true
 		}
 		return
@@ -1128,6 +1141,8 @@ func (e *Engine) call(s *State, f *Frame, cc *ssa.CallCommon, x ssa.Value, defer
 			e.mwrite(s, m, "p", "Bool", k, boolT(false))
 		case "append":
 			return e.appendB(s, f, x, args[0].(SliceV), args[1])
+		case "recover": // on the paths explored nothing is panicking (a panic site is a failed obligation, not a path)
+			f.env[x] = IfaceV{IsNil: boolT(true)}
 		case "ssa:deferstack", "ssa:wrapnilchk":
 			f.env[x] = PtrV{Nil: true}
 		default:
@@ -1194,6 +1209,9 @@ func (e *Engine) callFn(s *State, f *Frame, fn *ssa.Function, args []Val, bind [
 		}
 	}
 	if strings.HasPrefix(name, "vsTrace") {
+		if fn.Signature.Results().Len() == 1 {
+			curResultType = fn.Signature.Results().At(0).Type()
+		}
 		if v, ok := e.traceIntrinsic(s, name, args); ok {
 			f.env[x] = v
 			return true
@@ -1673,7 +1691,7 @@ func inlinablePkg(path string) bool {
 		return true
 	}
 	switch path {
-	case "encoding/binary", "math/bits", "bytes", "unicode/utf8":
+	case "encoding/binary", "math/bits":
 		return true
 	}
 	return false
@@ -1681,7 +1699,7 @@ func inlinablePkg(path string) bool {
 
 // readOnlyExternal lists external callees that do not write through their arguments (documented behaviour).
 func readOnlyExternal(name string) bool {
-	for _, p := range []string{"fmt.", "errors.", "strconv.", "strings.", "bytes.Equal", "bytes.Compare", "bytes.HasPrefix", "time.", "(time.", "(*time.", "math.", "unicode", "sort.Search", "encoding/base64.", "(*encoding/base64.", "regexp.", "(*regexp.", "github.com/emitter-io/emitter/internal/provider/logging."} {
+	for _, p := range []string{"fmt.", "errors.", "strconv.", "strings.", "bytes.", "time.", "(time.", "(*time.", "math.", "unicode", "sort.Search", "encoding/base64.", "(*encoding/base64.", "regexp.", "(*regexp.", "github.com/emitter-io/emitter/internal/provider/logging."} {
 		if strings.HasPrefix(name, p) {
 			return true
 		}
